@@ -122,6 +122,7 @@ pub struct Snapshot {
 #[derive(Clone, Debug, Serialize, Deserialize, Default)]
 pub struct ConnObs {
     pub opened: bool,
+    pub peer: Option<String>,
     pub connect_err: Option<String>,
     pub received: B,
     pub server_wrote_len: usize,
@@ -367,7 +368,12 @@ fn run_program(mut rq: Request, sh: &Arc<Shared>, rx: usize) {
                 seq: simrt::seq(),
             });
         }
-        BodyPlan::ToEof { buf } => {
+        BodyPlan::ToEof { .. } | BodyPlan::Mixed { .. } => {
+            let (sizes, buf) = match &prog.body {
+                BodyPlan::ToEof { buf } => (vec![], *buf),
+                BodyPlan::Mixed { sizes, buf } => (sizes.clone(), *buf),
+                _ => unreachable!(),
+            };
             let mut data = Vec::new();
             let mut eof = false;
             let mut err = None;
@@ -377,8 +383,9 @@ fn run_program(mut rq: Request, sh: &Arc<Shared>, rx: usize) {
                 seq: simrt::seq(),
             });
             let rd = rq.as_reader();
-            let mut b = vec![0u8; (*buf).max(1)];
             loop {
+                let sz = sizes.get(reads).copied().unwrap_or(buf).max(1);
+                let mut b = vec![0u8; sz];
                 reads += 1;
                 match rd.read(&mut b) {
                     Ok(0) => {
@@ -400,10 +407,19 @@ fn run_program(mut rq: Request, sh: &Arc<Shared>, rx: usize) {
                     break;
                 }
             }
+            // a further read after end-of-stream must keep returning Ok(0)
+            let mut after_eof = None;
+            if eof {
+                let mut b = [0u8; 16];
+                after_eof = Some(match rd.read(&mut b) {
+                    Ok(n) => n,
+                    Err(_) => usize::MAX,
+                });
+            }
             sh.ev(Ev::BodyRead {
                 id: id.clone(),
                 data: B(data),
-                eof,
+                eof: eof && after_eof.unwrap_or(0) == 0,
                 err,
                 reads,
                 seq: simrt::seq(),
@@ -683,7 +699,11 @@ fn client_thread(addr: simrt::net::Addr, sh: Arc<Shared>, ci: usize, sc: ConnScr
     c.set_window(sc.window);
     c.set_short_writes(sc.short_writes);
     sh.clients.lock().unwrap()[ci] = Some(c.clone());
-    sh.obs.lock().unwrap().conns[ci].opened = true;
+    {
+        let mut o = sh.obs.lock().unwrap();
+        o.conns[ci].opened = true;
+        o.conns[ci].peer = c.peer_addr_seen_by_server().map(|a| a.to_string());
+    }
     cev("open");
     if let (Some(_), Some((chunk, every))) = (sc.window, sc.drain) {
         let c2 = c.clone();
